@@ -58,6 +58,16 @@ func (cfg *Config) merge(src *Config) error {
 		return err
 	}
 
+	// mergo keeps the destination's (never empty) variables container as it is, which dropped
+	// every "variables:" entry of the merged configuration
+	if src.Variables != nil {
+		if cfg.Variables == nil {
+			cfg.Variables = src.Variables
+		} else {
+			cfg.Variables = cfg.Variables.Merge(src.Variables)
+		}
+	}
+
 	return nil
 }
 
